@@ -50,45 +50,45 @@ def run(ck):
                     return R, res
 
                 paths = _rbm(ck, cls, fn)
-                p = single(paths, cls)
-                if not shape_err_verdict(ck, "C05.R1", "%s/%s" % (cls, form), paths):
-                    continue
-                R, res = p.value
-                refs = cond_refs(R, T.sym)
-                for name, (argk, ref) in refs.items():
-                    site = prog.method(cls, name).site()
-                    got = res[name].term
-                    want = ref
-                    if form == "vector":
-                        # batch of one, squeezed (auto_unsqueeze_args on every listed argument)
-                        ren = {k: T.app("unsq", T.sym(k), -2, 2) for k in argk}
-                        want = T.app("sq", T.rename_syms(ref, ren), -2)
-                    inst = "%s.%s/%s" % (cls, name, form)
-                    if got == want:
-                        ck.ok("C05.R1", inst, site, prob=got)
-                    else:
-                        _report_cond(ck, inst, site, got, want)
-                    out_dim = {"prob_h_given_v": "nh", "prob_a_given_v": "na"}.get(name, "nv")
-                    ck.check(res[name].shape == lead + (out_dim,), "C05.R1", inst + ":shape", site,
-                             "conditional has shape %s, expected %s" % (res[name].shape, lead + (out_dim,)))
-                    sname = name.replace("prob_", "sample_")
-                    sv = res[sname]
-                    ssite = prog.method(cls, sname).site()
-                    ok = sv.term == T.app("bern", got) if got is not None and sv.term is not None else None
-                    ck.check(ok, "C05.R1", "%s.%s/%s" % (cls, sname, form), ssite,
-                             "sampler is not a Bernoulli draw from %s: %r" % (name, sv.term))
-                    ck.check(sv.obj.valkind == "bern", "C05.R1", "%s.%s/%s:0/1" % (cls, sname, form), ssite, "sampler output is not produced by torch.bernoulli")
-                # pre-activations of the conditionals are those inside the energy's softplus terms
-                if form == "batched":
-                    pre_E = {a.args[0] for a in res["E"].term.all_atoms() if isinstance(a, T.App) and a.op == "softplus"}
-                    pre_C = set()
-                    for name in ("prob_h_given_v", "prob_a_given_v"):
-                        if name in res:
-                            at = res[name].term.single_atom()
-                            if at is not None and at.op == "sigmoid":
-                                pre_C.add(at.args[0])
-                    ck.check(pre_E == pre_C, "C05.R1", cls + ":energy<->conditionals", prog.method(cls, "effective_energy").site(),
-                             "softplus arguments of the effective energy %s differ from the hidden-layer pre-activations of the Gibbs conditionals %s" % (sorted(map(repr, pre_E)), sorted(map(repr, pre_C))))
+                for p in returning(paths, cls):
+                    if not shape_err_verdict(ck, "C05.R1", "%s/%s" % (cls, form), paths):
+                        continue
+                    R, res = p.value
+                    refs = cond_refs(R, T.sym)
+                    for name, (argk, ref) in refs.items():
+                        site = prog.method(cls, name).site()
+                        got = res[name].term
+                        want = ref
+                        if form == "vector":
+                            # batch of one, squeezed (auto_unsqueeze_args on every listed argument)
+                            ren = {k: T.app("unsq", T.sym(k), -2, 2) for k in argk}
+                            want = T.app("sq", T.rename_syms(ref, ren), -2)
+                        inst = "%s.%s/%s" % (cls, name, form)
+                        if got == want:
+                            ck.ok("C05.R1", inst, site, prob=got)
+                        else:
+                            _report_cond(ck, inst, site, got, want)
+                        out_dim = {"prob_h_given_v": "nh", "prob_a_given_v": "na"}.get(name, "nv")
+                        ck.check(res[name].shape == lead + (out_dim,), "C05.R1", inst + ":shape", site,
+                                 "conditional has shape %s, expected %s" % (res[name].shape, lead + (out_dim,)))
+                        sname = name.replace("prob_", "sample_")
+                        sv = res[sname]
+                        ssite = prog.method(cls, sname).site()
+                        ok = sv.term == T.app("bern", got) if got is not None and sv.term is not None else None
+                        ck.check(ok, "C05.R1", "%s.%s/%s" % (cls, sname, form), ssite,
+                                 "sampler is not a Bernoulli draw from %s: %r" % (name, sv.term))
+                        ck.check(sv.obj.valkind == "bern", "C05.R1", "%s.%s/%s:0/1" % (cls, sname, form), ssite, "sampler output is not produced by torch.bernoulli")
+                    # pre-activations of the conditionals are those inside the energy's softplus terms
+                    if form == "batched":
+                        pre_E = {a.args[0] for a in res["E"].term.all_atoms() if isinstance(a, T.App) and a.op == "softplus"}
+                        pre_C = set()
+                        for name in ("prob_h_given_v", "prob_a_given_v"):
+                            if name in res:
+                                at = res[name].term.single_atom()
+                                if at is not None and at.op == "sigmoid":
+                                    pre_C.add(at.args[0])
+                        ck.check(pre_E == pre_C, "C05.R1", cls + ":energy<->conditionals", prog.method(cls, "effective_energy").site(),
+                                 "softplus arguments of the effective energy %s differ from the hidden-layer pre-activations of the Gibbs conditionals %s" % (sorted(map(repr, pre_E)), sorted(map(repr, pre_C))))
         # ------------------------------------------------------------ R2 step structure, R3 overwrite
         gsite = prog.method(cls, "gibbs_steps").site()
         for ow in (False, True):
@@ -102,48 +102,48 @@ def run(ck):
                     return R, v0, r
 
                 paths = _rbm(ck, cls, fn)
-                p = single(paths, inst)
-                shape_err_verdict(ck, "C05.R2", inst, paths)
-                R, v0, r = p.value
-                loops = [l for l in p.interp.loops if "gibbs_steps" in l["site"]]
-                if len(loops) != 1 or loops[0]["generic"] is None:
-                    ck.undecided("C05.R2", inst, gsite, "expected exactly one summarised loop in gibbs_steps, found %d" % len(loops))
-                    continue
-                lp = loops[0]
-                # iteration count: exactly k
-                cnt = T._show(_loop_count(lp))
-                itv = lp["iter"]
-                okc = getattr(itv, "start", None) is not None and num_term(itv.start) == T.ZERO and num_term(itv.stop) == T.sym("k") and num_term(itv.step) == T.ONE
-                ck.check(bool(okc), "C05.R2", inst + ":k iterations", lp["site"], "the Gibbs loop does not run exactly k times: %s" % cnt)
-                # returned object is the loop-carried visible buffer
-                robj = r.obj
-                ck.check(robj in lp["generic"]["terms"], "C05.R2", inst + ":returns chain", gsite, "the returned tensor is not the buffer updated by the loop")
-                if robj in lp["generic"]["terms"]:
-                    carry = T.sym(lp["carried"][robj])
-                    hp = T.app("bern", T.sigmoid(aff(carry, R["W"], R["c"])))
-                    pre = T.app("matmul", hp, R["W"]) + R["b"]
-                    if has_aux:
-                        ap = T.app("bern", T.sigmoid(aff(carry, R["U"], R["d"])))
-                        pre = pre + T.app("matmul", ap, R["U"])
-                    want = T.app("bern", T.sigmoid(pre))
-                    got = lp["generic"]["terms"][robj]
-                    if got == want:
-                        ck.ok("C05.R2", inst + ":step", lp["site"], step=got)
+                for p in returning(paths, inst):
+                    shape_err_verdict(ck, "C05.R2", inst, paths)
+                    R, v0, r = p.value
+                    loops = [l for l in p.interp.loops if "gibbs_steps" in l["site"]]
+                    if len(loops) != 1 or loops[0]["generic"] is None:
+                        ck.undecided("C05.R2", inst, gsite, "expected exactly one summarised loop in gibbs_steps, found %d" % len(loops))
+                        continue
+                    lp = loops[0]
+                    # iteration count: exactly k
+                    cnt = T._show(_loop_count(lp))
+                    itv = lp["iter"]
+                    okc = getattr(itv, "start", None) is not None and num_term(itv.start) == T.ZERO and num_term(itv.stop) == T.sym("k") and num_term(itv.step) == T.ONE
+                    ck.check(bool(okc), "C05.R2", inst + ":k iterations", lp["site"], "the Gibbs loop does not run exactly k times: %s" % cnt)
+                    # returned object is the loop-carried visible buffer
+                    robj = r.obj
+                    ck.check(robj in lp["generic"]["terms"], "C05.R2", inst + ":returns chain", gsite, "the returned tensor is not the buffer updated by the loop")
+                    if robj in lp["generic"]["terms"]:
+                        carry = T.sym(lp["carried"][robj])
+                        hp = T.app("bern", T.sigmoid(aff(carry, R["W"], R["c"])))
+                        pre = T.app("matmul", hp, R["W"]) + R["b"]
+                        if has_aux:
+                            ap = T.app("bern", T.sigmoid(aff(carry, R["U"], R["d"])))
+                            pre = pre + T.app("matmul", ap, R["U"])
+                        want = T.app("bern", T.sigmoid(pre))
+                        got = lp["generic"]["terms"][robj]
+                        if got == want:
+                            ck.ok("C05.R2", inst + ":step", lp["site"], step=got)
+                        else:
+                            _report_step(ck, inst + ":step", lp["site"], got, want, lp, robj)
+                        first = lp["first"]["terms"].get(robj)
+                        want1 = T.rename_syms(want, {lp["carried"][robj]: "init"})
+                        ck.check(first == want1, "C05.R2", inst + ":first step from initial_state", lp["site"],
+                                 "the first step does not start from the given initial state")
+                    # ---- R3 overwrite
+                    writes_init = [e for e in p.effects if "param:init" in e.origins and e.kind in ("write", "meta")]
+                    if ow:
+                        ck.check(r.obj is v0.obj, "C05.R3", inst + ":returns initial_state", gsite, "with overwrite=True the returned chain is not the caller's tensor")
+                        ck.check(bool(writes_init), "C05.R3", inst + ":updated in place", gsite, "with overwrite=True the caller's tensor is never written")
                     else:
-                        _report_step(ck, inst + ":step", lp["site"], got, want, lp, robj)
-                    first = lp["first"]["terms"].get(robj)
-                    want1 = T.rename_syms(want, {lp["carried"][robj]: "init"})
-                    ck.check(first == want1, "C05.R2", inst + ":first step from initial_state", lp["site"],
-                             "the first step does not start from the given initial state")
-                # ---- R3 overwrite
-                writes_init = [e for e in p.effects if "param:init" in e.origins and e.kind in ("write", "meta")]
-                if ow:
-                    ck.check(r.obj is v0.obj, "C05.R3", inst + ":returns initial_state", gsite, "with overwrite=True the returned chain is not the caller's tensor")
-                    ck.check(bool(writes_init), "C05.R3", inst + ":updated in place", gsite, "with overwrite=True the caller's tensor is never written")
-                else:
-                    ck.check(not writes_init, "C05.R3", inst + ":untouched", writes_init[0].site if writes_init else gsite,
-                             "the caller's start state is written although overwrite=False (%s)" % (writes_init[0].detail if writes_init else ""))
-                    ck.check(r.obj.origin == "fresh", "C05.R3", inst + ":fresh result", gsite, "with overwrite=False the result shares storage with %s" % r.obj.origin)
+                        ck.check(not writes_init, "C05.R3", inst + ":untouched", writes_init[0].site if writes_init else gsite,
+                                 "the caller's start state is written although overwrite=False (%s)" % (writes_init[0].detail if writes_init else ""))
+                        ck.check(r.obj.origin == "fresh", "C05.R3", inst + ":fresh result", gsite, "with overwrite=False the result shares storage with %s" % r.obj.origin)
             # constant k: 0 and 2
             with ck.guard("C05.R2", inst + "/k const", gsite):
                 def fn2(it, m):
@@ -152,18 +152,18 @@ def run(ck):
                     r2 = call(it, m, "gibbs_steps", VConst(2), tens(it, "init", ("B", "nv")), overwrite=VConst(ow))
                     return R, r0, r2
 
-                p = single(_rbm(ck, cls, fn2), inst)
-                R, r0, r2 = p.value
-                ck.check(r0.term == T.sym("init"), "C05.R2", inst + ":k=0 returns start", gsite, "k=0 does not return the start state unchanged: %r" % (r0.term,))
+                for p in returning(_rbm(ck, cls, fn2), inst):
+                    R, r0, r2 = p.value
+                    ck.check(r0.term == T.sym("init"), "C05.R2", inst + ":k=0 returns start", gsite, "k=0 does not return the start state unchanged: %r" % (r0.term,))
 
-                def step(x):
-                    hp = T.app("bern", T.sigmoid(aff(x, R["W"], R["c"])))
-                    pre = T.app("matmul", hp, R["W"]) + R["b"]
-                    if has_aux:
-                        pre = pre + T.app("matmul", T.app("bern", T.sigmoid(aff(x, R["U"], R["d"]))), R["U"])
-                    return T.app("bern", T.sigmoid(pre))
+                    def step(x):
+                        hp = T.app("bern", T.sigmoid(aff(x, R["W"], R["c"])))
+                        pre = T.app("matmul", hp, R["W"]) + R["b"]
+                        if has_aux:
+                            pre = pre + T.app("matmul", T.app("bern", T.sigmoid(aff(x, R["U"], R["d"]))), R["U"])
+                        return T.app("bern", T.sigmoid(pre))
 
-                ck.check(r2.term == step(step(T.sym("init"))), "C05.R2", inst + ":k=2 is two steps", gsite, "k=2 is not the two-fold composition of the block-Gibbs step")
+                    ck.check(r2.term == step(step(T.sym("init"))), "C05.R2", inst + ":k=2 is two steps", gsite, "k=2 is not the two-fold composition of the block-Gibbs step")
     # ---------------------------------------------------------------- sample(): forwarding, start state
     for scls in ("PositiveWaveFunction", "ComplexWaveFunction", "DensityMatrix"):
         ssite = prog.method(scls, "sample").site()
@@ -179,25 +179,25 @@ def run(ck):
 
                 paths = paths_of(prog, th)
                 ck.note_functions(functions_in_paths(paths))
-                p = single(paths, inst)
-                v0, r, k = p.value
-                gcalls = [c for c in p.calls if c[0].endswith(".gibbs_steps")]
-                ck.check(len(gcalls) == 1, "C05.R2", inst + ":delegates", ssite, "sample() does not call rbm_am.gibbs_steps exactly once")
-                if len(gcalls) == 1:
-                    env = gcalls[0][5]
-                    ck.check(num_term(env.get("k")) == T.sym("k"), "C05.R2", inst + ":k forwarded", ssite, "k is not forwarded unchanged to gibbs_steps")
-                    ist = env.get("initial_state")
-                    ck.check(isinstance(ist, VTens) and ist.obj is v0.obj, "C05.R2", inst + ":initial_state forwarded", ssite, "initial_state is not forwarded to gibbs_steps")
-                    okw, w = const_of(env.get("overwrite"))
-                    ck.check(okw and w is ow, "C05.R3", inst + ":overwrite forwarded", ssite, "overwrite flag is not forwarded")
-                    rb = it_cls_of(gcalls[0][1][0])
-                    ck.check(rb is not None, "C05.R2", inst + ":uses rbm_am", ssite, "gibbs_steps receiver is not the amplitude network")
-                writes_init = [e for e in p.effects if "param:init" in e.origins and e.kind in ("write", "meta")]
-                if ow:
-                    ck.check(r.obj is v0.obj and bool(writes_init), "C05.R3", inst + ":in place", ssite, "overwrite=True does not update and return the caller's tensor")
-                else:
-                    ck.check(not writes_init and r.obj.origin == "fresh", "C05.R3", inst + ":untouched", writes_init[0].site if writes_init else ssite,
-                             "overwrite=False writes or returns the caller's tensor")
+                for p in returning(paths, inst):
+                    v0, r, k = p.value
+                    gcalls = [c for c in p.calls if c[0].endswith(".gibbs_steps")]
+                    ck.check(len(gcalls) == 1, "C05.R2", inst + ":delegates", ssite, "sample() does not call rbm_am.gibbs_steps exactly once")
+                    if len(gcalls) == 1:
+                        env = gcalls[0][5]
+                        ck.check(num_term(env.get("k")) == T.sym("k"), "C05.R2", inst + ":k forwarded", ssite, "k is not forwarded unchanged to gibbs_steps")
+                        ist = env.get("initial_state")
+                        ck.check(isinstance(ist, VTens) and ist.obj is v0.obj, "C05.R2", inst + ":initial_state forwarded", ssite, "initial_state is not forwarded to gibbs_steps")
+                        okw, w = const_of(env.get("overwrite"))
+                        ck.check(okw and w is ow, "C05.R3", inst + ":overwrite forwarded", ssite, "overwrite flag is not forwarded")
+                        rb = it_cls_of(gcalls[0][1][0])
+                        ck.check(rb is not None, "C05.R2", inst + ":uses rbm_am", ssite, "gibbs_steps receiver is not the amplitude network")
+                    writes_init = [e for e in p.effects if "param:init" in e.origins and e.kind in ("write", "meta")]
+                    if ow:
+                        ck.check(r.obj is v0.obj and bool(writes_init), "C05.R3", inst + ":in place", ssite, "overwrite=True does not update and return the caller's tensor")
+                    else:
+                        ck.check(not writes_init and r.obj.origin == "fresh", "C05.R3", inst + ":untouched", writes_init[0].site if writes_init else ssite,
+                                 "overwrite=False writes or returns the caller's tensor")
         inst = "%s.sample/no initial_state" % scls
         with ck.guard("C05.R4", inst, ssite):
             def th2(it):
@@ -207,12 +207,12 @@ def run(ck):
                 r = call(it, s, "sample", VConst(0), num_samples=ns)
                 return r
 
-            p = single(paths_of(prog, th2), inst)
-            r = p.value
-            ck.check(r.shape == ("num_samples", "nv"), "C05.R4", inst + ":shape", ssite, "start state has shape %s, expected (num_samples, num_visible)" % (r.shape,))
-            at = r.term.single_atom() if r.term is not None else None
-            ok = at is not None and isinstance(at, T.App) and at.op == "bern" and at.args[0] == T.const(T.Fraction(1, 2))
-            ck.check(ok, "C05.R4", inst + ":uniform bits", ssite, "default start state is not a Bernoulli(0.5) draw: %r" % (r.term,))
+            for p in returning(paths_of(prog, th2), inst):
+                r = p.value
+                ck.check(r.shape == ("num_samples", "nv"), "C05.R4", inst + ":shape", ssite, "start state has shape %s, expected (num_samples, num_visible)" % (r.shape,))
+                at = r.term.single_atom() if r.term is not None else None
+                ok = at is not None and isinstance(at, T.App) and at.op == "bern" and at.args[0] == T.const(T.Fraction(1, 2))
+                ck.check(ok, "C05.R4", inst + ":uniform bits", ssite, "default start state is not a Bernoulli(0.5) draw: %r" % (r.term,))
     ck.require_min("C05.R1", 30)
     ck.require_min("C05.R2", 30)
     ck.require_min("C05.R3", 20)
